@@ -3,10 +3,10 @@
   model covers: files, headers, padding, row order and flattening on top of the proved text layer (Props/Csv.lean).
   Property theorems ONLY.  For ALL datasets: any number of rows, any tokens satisfying the explicit well-formedness predicates.
 -/
-import Kapture.Lemmas.C01
+import Kapture.Lemmas.C01Typed
 
 namespace Kapture.C01
-open Kapture.Csv
+open Kapture.Csv Kapture.Gen.RecordSchemas
 
 /-- the generated version line and every generated header are comment lines without line breaks -/
 theorem headers_wellformed :
@@ -127,6 +127,111 @@ theorem sensors_rigs_roundtrip (rows : List (List Str)) (h : ∀ r ∈ rows, Row
     parseFile (textFile "sensors.txt" rows) = rows ∧ parseFile (textFile "rigs.txt" rows) = rows :=
   ⟨(textFile_roundtrip "sensors.txt" rows (mem_known_files _ (by simp)) h).1,
    (textFile_roundtrip "rigs.txt" rows (mem_known_files _ (by simp)) h).1⟩
+
+-- the typed layer ------------------------------------------------------------------------------------------------------
+-- values -> tokens -> text -> tokens -> values.  `F` is any type of floats with a `Lawful` codec (float(repr(x)) == x ...).
+
+/-- a pose with or without rotation, with or without translation, comes back as it is through BOTH pose readers (the one of
+  trajectories.txt and the one of rigs.txt, which are written differently) -/
+theorem pose_roundtrip {F : Type} (c : Codec F) (h : Lawful c) (p : Pose F) :
+    trajPoseOfFields c (poseToList c p) = Except.ok p ∧ rigPoseOfFields c (poseToList c p) = Except.ok p :=
+  ⟨traj_pose_roundtrip c h p, rig_pose_roundtrip c h p⟩
+
+/-- TYPED trajectories: writing any trajectory (any number of entries, negative and 19-digit timestamps, partial poses) and
+  decoding every row of the file that was written yields exactly the entries, sorted by (timestamp, device): same keys, same
+  integers, the same floats, missing parts still missing -/
+theorem typed_trajectories_roundtrip {F : Type} (c : Codec F) (h : Lawful c) (t : List (Int × Str × Pose F))
+    (hid : ∀ e ∈ t, IdOK e.2.1) :
+    (parseFile (textFile "trajectories.txt" (trajectoryRows (t.map (trajEntryTokens c))))).map (decodeTrajRow c) =
+      (sortBy (fun a b => keyLe (a.1, a.2.1) (b.1, b.2.1)) t).map Except.ok := by
+  have h1 := (trajectories_roundtrip (t.map (trajEntryTokens c)) (by
+    intro e he
+    obtain ⟨e0, he0, rfl⟩ := List.mem_map.1 he
+    exact ⟨hid e0 he0, poseToList_fieldOK c h e0.2.2⟩)).1
+  rw [h1]
+  unfold trajectoryRows
+  rw [sortBy_map (fun a b => keyLe (a.1, a.2.1) (b.1, b.2.1)) _ (trajEntryTokens c) (fun a b => rfl)]
+  simp only [List.map_map]
+  apply List.map_congr_left
+  intro e _
+  simp [trajEntryTokens, decodeTrajRow, readInt_showInt, traj_pose_roundtrip c h]
+  rfl
+
+/-- TYPED rigs: rows in dictionary order, every (rig, device, pose) comes back -/
+theorem typed_rigs_roundtrip {F : Type} (c : Codec F) (h : Lawful c) (rigs : List (Str × Str × Pose F))
+    (hid : ∀ e ∈ rigs, IdOK e.1 ∧ e.1.head? ≠ some '#' ∧ FieldOK e.2.1) :
+    (parseFile (textFile "rigs.txt" (rigs.map (rigRow c)))).map (decodeRigRow c) = rigs.map Except.ok := by
+  have h1 := (sensors_rigs_roundtrip (rigs.map (rigRow c)) (by
+    intro r hr
+    obtain ⟨e, he, rfl⟩ := List.mem_map.1 hr
+    obtain ⟨h1, h2, h3⟩ := hid e he
+    refine ⟨fun f hf => ?_, e.1, _, rfl, h1.2, h2⟩
+    rcases List.mem_cons.1 hf with rfl | hf
+    · exact h1.1
+    · rcases List.mem_cons.1 hf with rfl | hf
+      · exact h3
+      · exact poseToList_fieldOK c h _ f hf)).2
+  rw [h1, List.map_map]
+  apply List.map_congr_left
+  intro e _
+  simp [rigRow, decodeRigRow, rig_pose_roundtrip c h]
+  rfl
+
+/-- TYPED records stored as values: for each of the four files, entries whose fields have the types DECLARED by the record class
+  (Gen/RecordSchemas.lean, from dataclasses.fields of the live class) come back with the same integers, floats and strings -/
+theorem typed_generic_records_roundtrip {F : Type} (c : Codec F) (h : Lawful c) (file : String)
+    (hf : file ∈ ["records_gnss.txt", "records_accelerometer.txt", "records_gyroscope.txt", "records_magnetic.txt"])
+    (t : List (Int × Str × List (Val F)))
+    (ht : ∀ e ∈ t, IdOK e.2.1 ∧ e.2.2.map Val.ty = schemaOf file ∧ ∀ v ∈ e.2.2, ∀ s, v = Val.str s → FieldOK s) :
+    (parseFile (textFile file (genericRecordRows (t.map (recordEntryTokens c))))).map (decodeRecordRow c (schemaOf file)) =
+      (sortBy (fun a b => keyLe (a.1, a.2.1) (b.1, b.2.1)) t).map Except.ok := by
+  have h1 := generic_records_roundtrip file hf (t.map (recordEntryTokens c)) (by
+    intro e he
+    obtain ⟨e0, he0, rfl⟩ := List.mem_map.1 he
+    refine ⟨(ht e0 he0).1, fun x hx => ?_⟩
+    obtain ⟨v, hv, rfl⟩ := List.mem_map.1 hx
+    exact renderVal_fieldOK c h v ((ht e0 he0).2.2 v hv))
+  rw [h1]
+  unfold genericRecordRows
+  rw [sortBy_map (fun a b => keyLe (a.1, a.2.1) (b.1, b.2.1)) _ (recordEntryTokens c) (fun a b => rfl)]
+  simp only [List.map_map]
+  apply List.map_congr_left
+  intro e he
+  have hty := (ht e ((mem_sortBy _ t e).1 he)).2.1
+  simp only [Function.comp, recordEntryTokens, decodeRecordRow, readInt_showInt]
+  rw [← hty, fields_roundtrip c h]
+  rfl
+
+/-- the fields a record class declares are, name for name, the columns its writer announces after timestamp and device -/
+theorem schemas_match_headers :
+    ∀ e ∈ generic, ∃ h ∈ Gen.Headers.columns, h.1 = e.1 ∧ h.2 = ["timestamp", "device_id"] ++ e.2.map (·.1) := by
+  decide +kernel
+
+/-- TYPED records stored as files and observations: timestamps, point indices and feature indices come back as the same
+  integers, names as the same strings -/
+theorem typed_file_record_row (ts : Int) (dev path : Str) : decodeFileRecordRow [showInt ts, dev, path] = Except.ok (ts, dev, path) := by
+  simp [decodeFileRecordRow, readInt_showInt]
+
+theorem typed_observation_row (idx : Int) (kt : Str) (pairs : List (Str × Int)) :
+    decodeObservationRow (showInt idx :: kt :: pairs.flatMap (fun p => [p.1, showInt p.2])) = Except.ok (idx, kt, pairs) := by
+  have hp : decodePairs (pairs.flatMap (fun p => [p.1, showInt p.2])) = Except.ok pairs := by
+    induction pairs with
+    | nil => rfl
+    | cons p ps ih =>
+      simp only [List.flatMap_cons, List.cons_append, List.nil_append, decodePairs, readInt_showInt, ih]
+      rfl
+  simp only [decodeObservationRow, readInt_showInt, hp]
+  rfl
+
+/-- TYPED radio signals (wifi, bluetooth): a signal's fields of the declared types come back as they were -/
+theorem typed_signal_row {F : Type} (c : Codec F) (h : Lawful c) (ts : Int) (dev addr : Str) (vs : List (Val F)) :
+    decodeSignalRow c (vs.map Val.ty) (showInt ts :: dev :: addr :: vs.map (renderVal c)) = Except.ok (ts, dev, addr, vs) := by
+  simp only [decodeSignalRow, readInt_showInt, fields_roundtrip c h]
+  rfl
+
+-- non-vacuity of `Lawful`: integers rendered in decimal are a lawful codec
+example : Lawful ({ render := showInt, parse := readInt } : Codec Int) :=
+  ⟨readInt_showInt, fun x => ⟨(showInt_fieldOK x).1, (showInt_fieldOK x).2.1⟩, by decide⟩
 
 -- C02 ------------------------------------------------------------------------------------------------------------------
 
